@@ -177,9 +177,10 @@ func (pc *PodCache) onEvent(old, pod *v1.Pod, ev model.Event) error {
 		if !shouldPodBeInEndpoints(pod) || !IsPodReady(pod) {
 			// delete only if this pod was in the cache
 			deleted := pc.deleteIP(ip, key)
-			if labelUpdated && pc.c != nil {
-				// Endpoints exist for pods that are not ready as well; keep their labels current.
-				pc.c.recomputeServiceForPod(pod)
+			if labelUpdated {
+				// Endpoints exist for pods that are not ready as well, and the pod's own proxy may be connected:
+				// keep the labels of both current, exactly as for a ready pod.
+				pc.proxyUpdates(pod, true)
 			}
 			if !deleted {
 				return nil
